@@ -204,6 +204,13 @@ def m_flag(cat, t, rng):
     cat['entries'].append(e)
 
 
+def m_format_flag(cat, t, rng):
+    h = ''.join(ch for ch in t if ch not in ',\n')[:3] or ' '
+    fmt = rng.choice(['c', 'python', 'python-brace', 'perl-brace'])
+    bad = rng.choice([fmt + h + '-format', h + fmt + '-format', fmt + '-format' + h, fmt[:1] + h + fmt[1:] + '-format'])
+    cat['entries'].append({'msgid': 'ff %d' % rng.randrange(1000), 'msgstr': 'y', 'flags': [bad, rng.choice(['possible-', 'no-', 'impossible-']) + fmt + '-format']})
+
+
 def m_range_flag(cat, t, rng):
     cat['entries'].append({'msgid': 'r %d' % rng.randrange(1000), 'msgid_plural': 'rs', 'msgstr_plural': ['a', 'b', 'c'], 'flags': ['range:' + t.replace(',', '')]})
 
@@ -252,7 +259,7 @@ for _f in ['Content-Type', 'Plural-Forms', 'Language', 'PO-Revision-Date']:
 SLOTS.update({
     'header-name': m_header_name, 'header-stray': m_header_stray, 'header-comment': m_header_comment, 'header-flag': m_header_flag,
     'msgid': m_msgid, 'msgstr': m_msgstr, 'msgctxt': m_msgctxt, 'duplicate': m_dup, 'flag': m_flag, 'range-flag': m_range_flag,
-    'plural-strings': m_plural_str, 'previous-msgid': m_prev, 'comments': m_comment, 'xml': m_xml, 'newlines': m_newlines,
+    'plural-strings': m_plural_str, 'format-flag': m_format_flag, 'previous-msgid': m_prev, 'comments': m_comment, 'xml': m_xml, 'newlines': m_newlines,
     'conflict-marker': m_conflict, 'obsolete': m_obsolete,
     'c-format': _m_format('c-format', lambda t, r: ('%s %d', '%d ' + t + ' %' + t)),
     'c-format-2': _m_format('c-format', lambda t, r: ('%1$s %2$d' + t, '%2$d %1$' + t + 's')),
